@@ -960,4 +960,213 @@ theorem other_machine_completion (mi j : Nat) (hj : j ≠ mi) (E : TEvent) (hE :
   · obtain ⟨l, hl⟩ := h2.ext
     exact ⟨l, hl, noLR_of_le (s := s.callStart t) hl h2.lr⟩
 
+/-! ### BlockingBegin for the machine itself: delivered to every machine, counted for one -/
+
+/-- a loop over distinct machines in which only the visit of `mi` turns `Pre` into `Post` -/
+theorem fold_visit_once {Pre Post : Fw σ → Prop} (F : Fw σ → Nat → Fw σ) (mi : Nat)
+    (hPre : ∀ s j, j ≠ mi → Pre s → Pre (F s j))
+    (hPost : ∀ s j, j ≠ mi → Post s → Post (F s j))
+    (hself : ∀ s, Pre s → Post (F s mi))
+    (l : List Nat) (hnd : l.Nodup) (hmem : mi ∈ l) (s : Fw σ) (hs : Pre s) : Post (l.foldl F s) := by
+  have hrest : ∀ (l : List Nat), mi ∉ l → ∀ s, Post s → Post (l.foldl F s) := by
+    intro l
+    induction l with
+    | nil => intro _ s hs; exact hs
+    | cons a l ih =>
+      intro hni s hs
+      simp only [List.mem_cons, not_or] at hni
+      exact ih hni.2 _ (hPost s a (fun h => hni.1 h.symm) hs)
+  induction l generalizing s with
+  | nil => cases hmem
+  | cons a l ih =>
+    simp only [List.nodup_cons] at hnd
+    simp only [List.foldl_cons]
+    by_cases ha : a = mi
+    · subst ha
+      exact hrest l hnd.1 _ (hself s hs)
+    · have : mi ∈ l := by
+        rcases List.mem_cons.mp hmem with h | h
+        · exact absurd h.symm ha
+        · exact h
+      exact ih hnd.2 this _ (hPre s a ha hs)
+
+/-- the visit of machine `mi` itself in the BlockingBegin loop for `mi`, in a state without a
+    transition on BlockingBegin: the delivery is logged, then the decrement runs -/
+theorem bbStep_self (mi : Nat) (a : Fw σ) (r : Runtime) (m : Machine) (st : State)
+    (hr : a.rt[mi]? = some r) (hm : a.machines[mi]? = some m) (hne : r.currentState ≠ STATE_END)
+    (hst : m.states[r.currentState]? = some st) (htr : st.transitions[Event.blockingBegin.toNat]? = some none) :
+    (if (fun p : Fw σ × Bool => !p.2 && notEnded p.1 mi && mi == mi) (transition ρ FUEL mi .blockingBegin a) = true
+      then decrementLimit ρ mi (transition ρ FUEL mi .blockingBegin a).1 else (transition ρ FUEL mi .blockingBegin a).1) =
+    decrementLimit ρ mi (a.push (.trans mi Event.blockingBegin.toNat r.currentState)) := by
+  rw [transition_noTrans ρ mi .blockingBegin a r m st hr hm hne hst htr]
+  have := notEnded_of mi (a.push (.trans mi Event.blockingBegin.toNat r.currentState)) r hr hne
+  simp [this]
+
+theorem decrement_fire_log (mi : Nat) (e : LogEntry) (A : Fw σ) (rA : Runtime) (m : Machine) (st : State) (a : Action)
+    (hrA : A.rt[mi]? = some rA) (hm : A.machines[mi]? = some m) (hst : m.states[rA.currentState]? = some st)
+    (hact : st.action = some a) (hl : a.hasLimit = true) (h1 : rA.stateLimit ≤ 1) (hlen : mi < A.actions.length) :
+    ∃ l, (decrementLimit ρ mi (A.push e)).log =
+      l ++ .trans mi Event.limitReached.toNat rA.currentState :: .limit mi 0 true :: e :: A.log := by
+  rw [decrementLimit_fire ρ mi (A.push e) rA m st a hrA hm hst hact hl h1 hlen]
+  have hrX : ({ ((A.push e).modRt mi (fun r' => { r' with stateLimit := 0 })).push (.limit mi 0 true) with
+      actions := (A.push e).actions.set mi none } : Fw σ).rt[mi]? = some { rA with stateLimit := 0 } := by
+    show ((A.push e).modRt mi (fun r' => { r' with stateLimit := 0 })).rt[mi]? = _
+    rw [Fw.modRt_rt_self, Fw.push_rt, hrA]; rfl
+  have hmX : ({ ((A.push e).modRt mi (fun r' => { r' with stateLimit := 0 })).push (.limit mi 0 true) with
+      actions := (A.push e).actions.set mi none } : Fw σ).machines[mi]? = some m := by simpa using hm
+  obtain ⟨l, hl⟩ := transition_logFirst ρ 7 mi .limitReached _ _ m hrX hmX
+  refine ⟨l, ?_⟩
+  rw [show (7 + 1 : Nat) = FUEL from rfl] at hl
+  rw [hl]
+  simp [Fw.push]
+
+theorem μLR_blockingBegin (mi k st' : Nat) : μLR mi (.trans k Event.blockingBegin.toNat st') = 0 := by
+  show (if k = mi ∧ Event.blockingBegin.toNat = Gen.EV_LimitReached then 1 else 0) = 0
+  rw [if_neg]
+  rintro ⟨_, h⟩
+  revert h
+  decide
+
+/-- the loop body of BlockingBegin for `mi`, for another machine -/
+theorem bbStep_other (mi k : Nat) (hk : k ≠ mi) (a : Fw σ) :
+    Quiet mi a (if (fun p : Fw σ × Bool => !p.2 && notEnded p.1 k && k == mi) (transition ρ FUEL k .blockingBegin a) = true
+      then decrementLimit ρ k (transition ρ FUEL k .blockingBegin a).1 else (transition ρ FUEL k .blockingBegin a).1) :=
+  quiet_transDec_other ρ mi k .blockingBegin a hk (fun p => !p.2 && notEnded p.1 k && k == mi)
+
+/-- **BlockingBegin for `mi`, counted, limit not used up** -/
+theorem call_blockingBegin_keep (mi : Nat) (t : Int) (s : Fw σ) (r : Runtime) (m : Machine) (st : State)
+    (hr : s.rt[mi]? = some r) (hm : s.machines[mi]? = some m) (hne : r.currentState ≠ STATE_END)
+    (hst : m.states[r.currentState]? = some st) (htr : st.transitions[Event.blockingBegin.toNat]? = some none)
+    (hns : ∀ vec, st.transitions[Event.signal.toNat]? ≠ some (some vec))
+    (hk : ∀ a, st.action = some a → a.hasLimit = true → 2 ≤ r.stateLimit) :
+    (triggerEvents ρ [.blockingBegin mi] t s).rt[mi]? =
+      some { r with stateLimit := r.stateLimit - 1, zeroedA := false, zeroedB := false } ∧
+    (triggerEvents ρ [.blockingBegin mi] t s).actions[mi]? = (s.actions[mi]?).map (fun _ => none) ∧
+    (triggerEvents ρ [.blockingBegin mi] t s).machines[mi]? = some m ∧
+    ∃ l, (triggerEvents ρ [.blockingBegin mi] t s).log = l ++ s.log ∧
+      (∀ st', LogEntry.trans mi Event.limitReached.toNat st' ∉ l) ∧
+      ∃ l1 l2, l = l1 ++ .limit mi (r.stateLimit - 1) true :: .trans mi Event.blockingBegin.toNat r.currentState :: l2 := by
+  unfold triggerEvents
+  simp only [List.foldl, processEvent]
+  have hr0 := callStart_rt s t mi r hr
+  generalize hb : (if !(s.callStart t).g.blockingActive then
+      ({ s.callStart t with g := { (s.callStart t).g with blockingActive := true, blockingStarted := (s.callStart t).g.now } } : Fw σ)
+      else s.callStart t) = b
+  have hqb : Quiet mi (s.callStart t) b := by
+    subst hb; split
+    · exact Quiet.setG mi _ _
+    · exact Quiet.refl _ _
+  have hlen : b.rt.length = (s.callStart t).rt.length := by
+    subst hb; split <;> rfl
+  have hmi : mi < b.rt.length := by
+    rw [hlen]
+    rcases Nat.lt_or_ge mi (s.callStart t).rt.length with h | h
+    · exact h
+    · simp [List.getElem?_eq_none h] at hr0
+  -- the loop
+  let r1 : Runtime := { r with stateLimit := r.stateLimit - 1, zeroedA := false, zeroedB := false }
+  have hloop := fold_visit_once
+    (Pre := fun a => Quiet mi (s.callStart t) a)
+    (Post := fun a => a.machines[mi]? = some m ∧ a.rt[mi]? = some r1 ∧
+      a.actions[mi]? = (s.callStart t).actions[mi]? ∧ lrOf mi a ≤ lrOf mi (s.callStart t) ∧
+      ∃ l1 l2, a.log = l1 ++ .limit mi (r.stateLimit - 1) true :: .trans mi Event.blockingBegin.toNat r.currentState ::
+        l2 ++ (s.callStart t).log)
+    (fun a k => if (fun p : Fw σ × Bool => !p.2 && notEnded p.1 k && k == mi) (transition ρ FUEL k .blockingBegin a) = true
+      then decrementLimit ρ k (transition ρ FUEL k .blockingBegin a).1 else (transition ρ FUEL k .blockingBegin a).1)
+    mi
+    (fun a k hk ha => ha.trans (bbStep_other ρ mi k hk a))
+    (fun a k hk ha => by
+      have q := bbStep_other ρ mi k hk a
+      obtain ⟨p1, p2, p3, p4, l1, l2, p5⟩ := ha
+      obtain ⟨l, hl⟩ := q.ext
+      exact ⟨by rw [q.m]; exact p1, by rw [q.rt]; exact p2, by rw [q.act]; exact p3, Nat.le_trans q.lr p4,
+        l ++ l1, l2, by rw [hl, p5]; simp⟩)
+    (fun a ha => by
+      have hra : a.rt[mi]? = some { r with zeroedA := false, zeroedB := false } := by rw [ha.rt]; exact hr0
+      have hma : a.machines[mi]? = some m := by rw [ha.m]; exact hm
+      simp only []
+      have hstep := (bbStep_self ρ mi a _ m st hra hma hne hst htr).trans
+        (decrementLimit_keep ρ mi (a.push (.trans mi Event.blockingBegin.toNat r.currentState))
+          { r with zeroedA := false, zeroedB := false } m st hra hma hst hk)
+      rw [hstep]
+      obtain ⟨l, hl⟩ := ha.ext
+      refine ⟨by simpa using hma, ?_, by simpa using ha.act, ?_, [], l, ?_⟩
+      · rw [Fw.push_rt, Fw.modRt_rt_self, Fw.push_rt, hra]; rfl
+      · rw [lr_push mi _ _ rfl, lr_same (Fw.modRt_log _ _ _), lr_push mi _ _ (μLR_blockingBegin mi mi _)]
+        exact ha.lr
+      · simp [Fw.push, hl])
+    (List.range b.rt.length) List.nodup_range (List.mem_range.mpr hmi) b hqb
+  obtain ⟨p1, p2, p3, p4, l1, l2, p5⟩ := hloop
+  -- the signal round
+  have hq := signalRound_quiet ρ mi m r.currentState
+    (fun st' vec hst' => by rw [hst] at hst'; cases hst'; exact hns vec) _ ⟨p1, r1, p2, rfl⟩
+  obtain ⟨l, hl⟩ := hq.ext
+  refine ⟨by rw [hq.rt]; exact p2, ?_, by rw [hq.m]; exact p1, l ++ l1 ++ .limit mi (r.stateLimit - 1) true ::
+    .trans mi Event.blockingBegin.toNat r.currentState :: l2, ?_, ?_, l ++ l1, l2, rfl⟩
+  · rw [hq.act, p3]; simp only [Fw.callStart, List.getElem?_map]
+  · rw [hl, p5]; simp [Fw.callStart]
+  · refine noLR_of_le (s := s.callStart t) (by rw [hl, p5]; simp) (Nat.le_trans hq.lr p4)
+
+/-- **BlockingBegin for `mi` that uses the limit up**: LimitReached is delivered to the machine,
+    in its unchanged state, directly after the decrement to 0 (the log is newest first; `l2` is
+    what the machines visited before `mi` logged, `l1` what happened afterwards) -/
+theorem call_blockingBegin_fire (mi : Nat) (t : Int) (s : Fw σ) (r : Runtime) (m : Machine) (st : State) (a : Action)
+    (hr : s.rt[mi]? = some r) (hm : s.machines[mi]? = some m) (hne : r.currentState ≠ STATE_END)
+    (hst : m.states[r.currentState]? = some st) (htr : st.transitions[Event.blockingBegin.toNat]? = some none)
+    (hlen : mi < s.actions.length)
+    (hact : st.action = some a) (hl : a.hasLimit = true) (h1 : r.stateLimit ≤ 1) :
+    ∃ l1 l2, (triggerEvents ρ [.blockingBegin mi] t s).log =
+      l1 ++ .trans mi Event.limitReached.toNat r.currentState :: .limit mi 0 true ::
+        .trans mi Event.blockingBegin.toNat r.currentState :: l2 ++ s.log := by
+  unfold triggerEvents
+  simp only [List.foldl, processEvent]
+  have hr0 := callStart_rt s t mi r hr
+  generalize hb : (if !(s.callStart t).g.blockingActive then
+      ({ s.callStart t with g := { (s.callStart t).g with blockingActive := true, blockingStarted := (s.callStart t).g.now } } : Fw σ)
+      else s.callStart t) = b
+  have hqb : Quiet mi (s.callStart t) b := by
+    subst hb; split
+    · exact Quiet.setG mi _ _
+    · exact Quiet.refl _ _
+  have hlen' : b.rt.length = (s.callStart t).rt.length := by
+    subst hb; split <;> rfl
+  have hmi : mi < b.rt.length := by
+    rw [hlen']
+    rcases Nat.lt_or_ge mi (s.callStart t).rt.length with h | h
+    · exact h
+    · simp [List.getElem?_eq_none h] at hr0
+  have hloop := fold_visit_once
+    (Pre := fun a => Quiet mi (s.callStart t) a)
+    (Post := fun a => ∃ l1 l2, a.log = l1 ++ .trans mi Event.limitReached.toNat r.currentState :: .limit mi 0 true ::
+        .trans mi Event.blockingBegin.toNat r.currentState :: l2 ++ (s.callStart t).log)
+    (fun a k => if (fun p : Fw σ × Bool => !p.2 && notEnded p.1 k && k == mi) (transition ρ FUEL k .blockingBegin a) = true
+      then decrementLimit ρ k (transition ρ FUEL k .blockingBegin a).1 else (transition ρ FUEL k .blockingBegin a).1)
+    mi
+    (fun a k hk ha => ha.trans (bbStep_other ρ mi k hk a))
+    (fun a k hk ha => by
+      obtain ⟨l, hl⟩ := (bbStep_other ρ mi k hk a).ext
+      obtain ⟨l1, l2, p5⟩ := ha
+      exact ⟨l ++ l1, l2, by rw [hl, p5]; simp⟩)
+    (fun a' ha => by
+      have hra : a'.rt[mi]? = some { r with zeroedA := false, zeroedB := false } := by rw [ha.rt]; exact hr0
+      have hma : a'.machines[mi]? = some m := by rw [ha.m]; exact hm
+      have hla : mi < a'.actions.length := by
+        have h := ha.act
+        rcases Nat.lt_or_ge mi a'.actions.length with h' | h'
+        · exact h'
+        · rw [List.getElem?_eq_none h'] at h
+          simp [Fw.callStart, hlen] at h
+      simp only []
+      rw [bbStep_self ρ mi a' _ m st hra hma hne hst htr]
+      obtain ⟨l, hl'⟩ := decrement_fire_log ρ mi (.trans mi Event.blockingBegin.toNat r.currentState) a'
+        { r with zeroedA := false, zeroedB := false } m st a hra hma hst hact hl h1 hla
+      obtain ⟨l0, hl0⟩ := ha.ext
+      exact ⟨l, l0, by rw [hl', hl0]; simp⟩)
+    (List.range b.rt.length) List.nodup_range (List.mem_range.mpr hmi) b hqb
+  obtain ⟨l1, l2, p5⟩ := hloop
+  obtain ⟨l, hl'⟩ := logExt_signalRound ρ ((List.range b.rt.length).foldl (fun a k =>
+      if (fun p : Fw σ × Bool => !p.2 && notEnded p.1 k && k == mi) (transition ρ FUEL k .blockingBegin a) = true
+      then decrementLimit ρ k (transition ρ FUEL k .blockingBegin a).1 else (transition ρ FUEL k .blockingBegin a).1) b)
+  exact ⟨l ++ l1, l2, by rw [hl', p5]; simp [Fw.callStart]⟩
+
 end Mb
